@@ -331,7 +331,8 @@ func e2eParseScenario(f []string) (*e2eScenario, bool) {
 	if s.bseed, err = strconv.ParseUint(bs, 10, 64); err != nil {
 		return nil, false
 	}
-	if len(parts) == 3 && (parts[2] == "A" || parts[2] == "B") {
+	// roles A/B: interleaved pair; roles C/D: C20 two-exporter scenario (e2e_two_test.go)
+	if len(parts) == 3 && (parts[2] == "A" || parts[2] == "B" || parts[2] == "C" || parts[2] == "D") {
 		pg, ps, ok := strings.Cut(parts[1], ":")
 		if !ok {
 			return nil, false
